@@ -443,6 +443,18 @@ func (s *fsm13) handleReceivedFlight( //nolint:cyclop
 		return s.handlePreviousFlightRetransmit(ctx, conn, received.RecordsToACK, ackResult)
 	}
 
+	if received.HasHandshake && s.currentFlight.IsLastSendFlight() {
+		// New handshake data after our final flight can only be a post-handshake
+		// message: the peer has completed the handshake, which acknowledges the flight
+		// implicitly even though its ACK was lost. The message stays cached and is
+		// processed (and acknowledged) by the post-handshake machine when the peer
+		// retransmits it.
+		s.retransmit = false
+		s.flightACK.reset()
+
+		return receivedFlightTransition{state: StateFinished}, nil
+	}
+
 	nextFlight, err := s.parseReceivedFlight(ctx, conn, s.currentFlight)
 	if err != nil {
 		return receivedFlightTransition{}, err
